@@ -82,6 +82,47 @@ def stepOpt (ts : List String) : Option String :=
       let counts : List Nat := (List.range seqs.length).map fun i => (spec.filter (fun e => e.seq == i)).length
       let okSpec := out == specOut && r.ret == (size : Int) && ((!r.parallel && !stable) || r.begins == counts)
       pure s!"out {showElems out} ret {r.ret} begins {showNatCsv r.begins} win {showWindows r} spec {if okSpec then 1 else 0}"
+  -- std::string keys (move-sensitive element type): same model, keys only
+  | "pmstr" :: variant :: cmp :: split :: threads :: osf :: algo :: force :: mink :: minn :: size :: runs => do
+    let cmp ← parseCmp cmp
+    let threads ← threads.toNat?; let osf ← osf.toNat?
+    let mink ← mink.toNat?; let minn ← minn.toNat?; let size ← size.toNat?
+    let runs ← runs.mapM intCsv
+    let stable := variant == "s"
+    if !(["u", "s"].contains variant) || !(["exact", "sampling"].contains split) || cmp == .half ||
+       !(["lt", "ltc", "lts", "bubble"].contains algo) || !(["par", "seq", "auto"].contains force) then none else
+    let total := (runs.map List.length).sum
+    if threads < 1 || threads > 64 || osf < 1 || osf > 64 || size > total then pure "bad-op" else
+    if runs.any (fun r => r.any (· < 0) || !sortedBy cmp.fn r) then pure "bad-op" else
+    let seqs : List (List Elem) := (List.range runs.length).map fun s =>
+      let r := runs.getD s []
+      (List.range r.length).map fun p => ⟨r.getD p 0, s, p⟩
+    let P : Params := { lt := cmp.fn, stable := stable, exact := split == "exact", threads := threads,
+                        osf := osf, sampleIdx := sampleIdxFloat }
+    match pmm P (force == "seq") (force == "par") mink minn seqs size with
+    | .error e => pure s!"model-failure {e}"
+    | .ok r => pure s!"out {showIntCsv (r.out.map (·.key))} ret {r.ret} begins {showNatCsv r.begins}"
+  -- front ends called without a comparator: the order is `<` of the INPUT value type, whatever the output type
+  | "pmd" :: front :: types :: force :: size :: runs => do
+    let size ← size.toNat?
+    let runs ← runs.mapM intCsv
+    if !(["pm", "spm", "pms", "spms", "mm", "smm", "mms", "smms"].contains front) ||
+       !(["iu", "il", "st"].contains types) then none else
+    let total := (runs.map List.length).sum
+    let lt : Int → Int → Bool := fun a b => a < b
+    if !(["par", "seq"].contains force) || size > total then pure "bad-op" else
+    if runs.any (fun r => r.any (fun x => x < -1000000 || x > 1000000) || !sortedBy lt r) then pure "bad-op" else
+    let seqs : List (List Elem) := (List.range runs.length).map fun s =>
+      let r := runs.getD s []
+      (List.range r.length).map fun p => ⟨r.getD p 0, s, p⟩
+    let stable := front.startsWith "s"
+    let sequential := front.startsWith "mm" || front.startsWith "smm" || force == "seq"
+    -- defaults of the API: exact splitting, oversampling 10; the thread count (hardware concurrency) does not
+    -- influence the modelled result of the stable variants (Props/C07: equal to the sequential merge)
+    let P : Params := { lt := lt, stable := stable, exact := true, threads := 4, osf := 10, sampleIdx := sampleIdxFloat }
+    match pmm P sequential (!sequential) 2 1000 seqs size with
+    | .error e => pure s!"model-failure {e}"
+    | .ok r => pure s!"out {showIntCsv (r.out.map (·.key))} ret {r.ret} begins {showNatCsv r.begins}"
   | _ => none
 
 def step (_ : Unit) (ts : List String) : Unit × String :=
